@@ -516,5 +516,14 @@ def r07_13(ctx):
         ctx.ok(construct, f.loc(empties[0]))
 
 
+def r07_14(ctx):
+    """R07.14 every emitter sees the same alias lists: get_deprecated_option() is the plain lookup in the reverse table (C11 R11.4) that the
+    sdkconfig block and the header section are built from - a lookup that adds aliases of aliases gives the CMake file variables the
+    other formats do not have; and the tree walk behind sdkconfig descends into every node (R07.9a)."""
+    from . import c11
+    from .common import delegate
+    delegate(ctx, c11.r11_4, lambda c: 'get_deprecated_option' in c)
+
+
 def rules():
-    return [("R07.13", r07_13, 1), ("R07.12", r07_12, 3), ("R07.11", r07_11, 1), ("R07.10", r07_10, 6), ("R07.9", r07_9, 6), ("R07.1", r07_1, 13), ("R07.6", r07_6, 8), ("R07.2", r07_2, 3), ("R07.3", r07_3, 4), ("R07.5", r07_5, 3), ("R07.7", r07_7, 4), ("R07.8", r07_8, 2)]
+    return [("R07.14", r07_14, 1), ("R07.13", r07_13, 1), ("R07.12", r07_12, 3), ("R07.11", r07_11, 1), ("R07.10", r07_10, 6), ("R07.9", r07_9, 6), ("R07.1", r07_1, 13), ("R07.6", r07_6, 8), ("R07.2", r07_2, 3), ("R07.3", r07_3, 4), ("R07.5", r07_5, 3), ("R07.7", r07_7, 4), ("R07.8", r07_8, 2)]
